@@ -207,17 +207,7 @@ Proof.
   - rewrite (augment_gen_copied _ _ _ _ _ H (or_intror Ht)), Hov. reflexivity.
 Qed.
 
-(* BEGIN-TODAY: the code as pinned (copied_plain = []).  AFTER A FIX of option.py that copies
-   discount_rate: set copied_plain := ["discount_rate"] in model/Option.v, delete this block
-   (the witness no longer computes) and state instead
-
-     Theorem augment_preserves : preserves augment.
-     Proof. exact (augment_gen_preserves copied_plain (or_introl eq_refl)). Qed.
-
-   (checked in a scratch copy of this development); augment_preserves_partial, option_stops
-   and Part C are unaffected. *)
-(* ... and is REFUTED for augment as option.py writes it: an instance-level
-   discount_rate (QuickMDP, GridWorld, ... set it in __init__) is lost. *)
+(* a concrete object with an instance-level discount_rate (as QuickMDP, GridWorld, ... build) *)
 Definition witness_class : pyclass :=
   mkClass "MarkovDecisionProcess" [("discount_rate", CVal (VNum 1%Q))].
 Definition witness_obj : obj :=
@@ -230,9 +220,18 @@ Definition witness_obj : obj :=
 Lemma vnum_inj : forall a b, Some (VNum a) = Some (VNum b) -> a = b.
 Proof. intros a b H. inversion H. reflexivity. Qed.
 
-Theorem augment_preserves_discount_refuted_witness :
+(* THE FULL STATEMENT for augment as option.py writes it (since /repo commit 29c9a36). *)
+Theorem augment_preserves : preserves augment.
+Proof. exact (augment_gen_preserves copied_plain (or_introl eq_refl)). Qed.
+
+(* HISTORICAL (the variant of augment BEFORE commit 29c9a36, augment_gen []): the full
+   statement was false for it - an instance-level discount_rate (QuickMDP, GridWorld, ...
+   set it in __init__) was lost, the fresh instance falling back to the class default.
+   This is the defect the check reports as C15:augment:instance-level-discount_rate-lost
+   if the old behaviour ever comes back. *)
+Theorem augment_old_variant_loses_discount :
   exists o ov o' k,
-    augment o ov = Some o' /\ In k (preserved_keys o) /\ assoc k ov = None /\
+    augment_gen [] o ov = Some o' /\ In k (preserved_keys o) /\ assoc k ov = None /\
     getattr o k = Some (VNum (1 # 2)%Q) /\ getattr o' k = Some (VNum 1%Q) /\
     getattr o' k <> getattr o k.
 Proof.
@@ -246,19 +245,23 @@ Proof.
   intro E. apply vnum_inj in E. discriminate E.
 Qed.
 
-Theorem augment_preserves_discount_refuted : ~ preserves augment.
+Corollary augment_old_variant_refuted : ~ preserves (augment_gen []).
 Proof.
   intro P.
-  destruct augment_preserves_discount_refuted_witness as (o & ov & o' & k & Ha & Hk & Hov & _ & _ & Hne).
+  destruct augment_old_variant_loses_discount as (o & ov & o' & k & Ha & Hk & Hov & _ & _ & Hne).
   exact (Hne (P o ov o' Ha k Hk Hov)).
 Qed.
 
-(* END-TODAY *)
+(* and the repaired augment keeps it on that very object *)
+Example augment_keeps_instance_discount :
+  exists o', augment witness_obj [] = Some o' /\ getattr o' "discount_rate" = Some (VNum (1 # 2)%Q).
+Proof. eexists. split; [vm_compute; reflexivity|reflexivity]. Qed.
 
-(* What does hold today: every functional component and the lists are preserved; any
-   other attribute (discount_rate in particular) is preserved exactly when it is a plain
-   class-level attribute not shadowed on the instance, and in general evaluates to what
-   the CLASS CHAIN gives for an empty instance dict. *)
+
+(* The finer picture (kept from before the fix; copied_keys now includes discount_rate):
+   every copied key is preserved / overridden; any OTHER attribute is preserved exactly
+   when it is a plain class-level attribute not shadowed on the instance, and in general
+   evaluates to what the CLASS CHAIN gives for an empty instance dict. *)
 Theorem augment_preserves_partial : forall o ov o',
   augment o ov = Some o' ->
   (forall k, In k components \/ (is_tabular o = true /\ In k tab_components) ->
